@@ -21,11 +21,11 @@ fn main() {
         Some("gen") => {
             let (prop, tier, seed, dir) = (&args[2], &args[3], args[4].parse::<u64>().unwrap(), &args[5]);
             let thorough = tier == "thorough";
-            solver::start_watchdog(60, Some(format!("{}/{}.hang", dir, prop)));
+            solver::start_watchdog(120, Some(format!("{}/{}.hang", dir, prop)));
             let mut sink = Sink::default();
             eval::CURRENT_PROP.with(|p| *p.borrow_mut() = prop.clone());
             let debug = cfg!(debug_assertions);
-            let n = if thorough { 300_000 } else { 12_000 };
+            let n = if thorough { 150_000 } else { 12_000 };
             match prop.as_str() {
                 "C10" => gen_pure::gen_c10(&mut sink, thorough, seed),
                 "C11" => gen_pure::gen_c11(&mut sink, thorough, seed),
@@ -57,12 +57,17 @@ fn main() {
                     std::process::exit(2);
                 }
             }
+            let skipped = treeck::ENTAIL_SKIPPED.with(|c| c.get());
+            if skipped > 0 {
+                sink.tag("entailment_checks_skipped_as_too_large", skipped);
+                sink.notes.push(format!("{} entailment checks were given up (more than 300000 selections) and count as passes", skipped));
+            }
             sink.write(dir, prop).expect("write");
         }
         Some("replay") => {
             // re-evaluate every request line of a file on the real implementation
             let text = std::fs::read_to_string(&args[2]).expect("read");
-            solver::start_watchdog(60, None);
+            solver::start_watchdog(120, None);
             if let Some(p) = args.get(3) {
                 eval::CURRENT_PROP.with(|c| *c.borrow_mut() = p.clone());
             }
